@@ -1,9 +1,50 @@
 import DspVerif.Driver.Proto
-/-! driver handlers for C16 (stub: no correspondence cases handled yet) -/
+import DspVerif.Model.Order
+/-! driver handlers for C16: the models of `Model/Order.lean` run at `Float` -/
 namespace Dsp.Driver
-open Dsp.Proto
+open Dsp.Proto Dsp.Order
+
+private def avgF : Float → Float → Float := avg2
+
+/-- `k v1 … vk` of optional values; an out-of-bounds read of the model prints `OOB` -/
+private def fmtOpts (l : List (Option Float)) : String :=
+  if l.isEmpty then "0" else
+    toString l.length ++ " " ++ String.intercalate " " (l.map fun o => match o with | some v => fmtF v | none => "OOB")
+
+/-- split a sample list into frames of the given lengths -/
+private def splitFrames (xs : List Float) : List Nat → List (List Float)
+  | [] => []
+  | l :: ls => xs.take l :: splitFrames (xs.drop l) ls
 
 def h16 : List String → Option String
+  | "sort" :: asc :: rest => do
+    let (x, _) ← takeFloats rest
+    let r := Order.sort x (asc == "1")
+    some (fmtFloatArr r.1.toArray)
+  | "median" :: rest => do
+    let (x, _) ← takeFloats rest
+    some (match Order.median avgF x.toList with | some v => fmtF v | none => "OOB")
+  | "mf" :: n :: init :: rest => do
+    let n ← parseI n
+    let v ← parseF init
+    let (ls, rest) ← takeInts rest
+    let (x, _) ← takeFloats rest
+    match MF.init n v with
+    | .error _ => some "ERR"
+    | .ok st => some (fmtOpts (st.processFrames avgF (splitFrames x.toList (ls.map Int.toNat))).2)
+  | "medfilt" :: n :: rest => do
+    let n ← parseI n
+    let (x, _) ← takeFloats rest
+    match Order.medfilt avgF (0.0 : Float) x.toList n with
+    | .error _ => some "ERR"
+    | .ok y => some (fmtOpts y)
+  | "corr" :: k :: rest => do
+    let k ← k.toNat?
+    let (x, rest) ← takeFloats rest
+    let (y, _) ← takeFloats rest
+    match Order.corr x y k with
+    | .error _ => some "ERR"
+    | .ok r => some (fmtF r)
   | _ => none
 
 end Dsp.Driver
